@@ -201,6 +201,21 @@ CLAIMED = {
         technique="TLA+ transcription of the bitmap metric computation checked by TLC; one implementation test per model state",
         design_ref="DESIGN.md §5 C14",
     ),
+    "C18": dict(
+        text="VarFont.tla (LoadConfig / BuildMaster per master in any order / Assemble: axis min-max from master positions, default from the "
+             "axis table, locations by axis name / Merge: structure agreement, tents, deltas solved master by master; the renderer's reading as "
+             "invariants, exact rationals) is model-checked over 8 layouts (1-2 axes, 2-3 masters, default first/last/middle/absent, intermediate "
+             "masters) x 7 sources per master with reuse on and off for MasterExact, DefaultExact, AxisRange, NoDefaultNoFont, IncompatibleRefused, "
+             "ClipContainsOnAxis / EscapeOnlyIfBilinear, termination.  Exported scenarios are rebuilt by the real CLI (variable font + each "
+             "master alone), evaluated by an independent variable-font evaluator at every master location and at quarter steps along every axis, "
+             "and compared with the static builds, the model's numbers (49/49 agree within 1 unit) and the clip box; random 2-3 master sets "
+             "(curves, gradients, opacity, 1-2 axes, metrics) go through the same comparison.",
+        note="Trusted: TLC; fontTools decompilation and iup_delta; the evaluator (OpenType variation semantics; agrees with the model on every "
+             "built scenario).  TLC found that a variable scale over a variable outline leaves the interpolated clip box between masters: "
+             "reproduced on the real CLI every run and reported as a known finding.  Off-axis masters (corner masters) are outside the model.",
+        technique="TLA+ model of the multi-master pipeline and of OpenType interpolation checked by TLC; spec-to-code replay on the real CLI with an independent variable-font evaluator",
+        design_ref="DESIGN.md §5 C18",
+    ),
 }
 
 NOT_YET = "check not built yet in this round; will be claimed once its TLA+ module and conformance harness exist"
